@@ -28,12 +28,12 @@ fn info(tier: Tier) -> CheckInfo {
         id: "C13",
         level: "model_checking",
         rule: format!(
-            "Tier {}: networks of S in 1..{} real server nodes (real actors, real sockets layer, simulated UDP): every assignment of 4 id classes to join positions (all permutations), start timing in {{sequential after the predecessor's bootstrapped(), all simultaneous, each joiner started after k = 1..3 network events of its predecessor's bootstrap}}, bootstrap list in {{first node, first node + a dead address, two live nodes, only dead addresses}}, IP plan in {{public, private}}; plus fixed shapes S in {} sequential and simultaneous. Oracle: every joiner with a live bootstrap address gets bootstrapped() = true and a non-empty table; the first node ends up knowing every node that bootstrapped from it; at quiescence the knows-graph of the routing tables is strongly connected; a find_node and a get started on every node send a request to every server; a node given only dead addresses gets bootstrapped() = false (it returns).",
+            "Tier {}: networks of S in 1..{} real server nodes (real actors, real sockets layer, simulated UDP): every assignment of 4 id classes to join positions (all permutations), start timing in {{sequential after the predecessor's bootstrapped(), all simultaneous, each joiner started after k = 1..3 network events of its predecessor's bootstrap}}, bootstrap list in {{first node, first node + a dead address, two live nodes, only dead addresses}}, IP plan in {{public, private}}; plus fixed shapes S in {} sequential and simultaneous. Oracle: every joiner with a live bootstrap address gets bootstrapped() = true and a non-empty table; the first node ends up knowing every node that bootstrapped from it; at quiescence the knows-graph of the routing tables is strongly connected; a find_node and a get started on every node send a request to every server; a node given only dead addresses gets bootstrapped() = false (it returns). Slow links: S in {{2,3}} with every datagram taking 300/350/600 ms (round trip above the initial 500 ms request timeout): bootstrapped() returns, and two minutes later every joiner has a non-empty table, bootstrapped() = true and is known to the first node.",
             tier.name(),
             if tier.is_quick() { 3 } else { 4 },
             "{8, 20}"
         ),
-        assumptions: vec!["loss-free network, 10 ms latency".into(), "sizes above 20 are not explored (bucket overflow is C12's)".into()],
+        assumptions: vec!["loss-free network, 10 ms latency (slow-link part: 300..600 ms)".into(), "sizes above 20 are not explored (bucket overflow is C12's)".into()],
     }
 }
 
@@ -297,6 +297,67 @@ fn scenario(cfg: &Cfg, track: bool) -> Out {
     Out { problems, steps: w.steps, digests: w.state_digests.iter().copied().collect(), rekeyed }
 }
 
+/// Slow links: every datagram takes `one_way_ms`, so the round trip exceeds the initial 500 ms
+/// request timeout. A live but slow server is still a live server: the joiner's first attempt
+/// may time out (bootstrapped() may say false, it must return), but it keeps retrying, its
+/// timeout adapts to the replies it sees arriving late, and it must end up with a non-empty
+/// table and bootstrapped() = true, known to the first node.
+fn slow_links(s: usize, public: bool, one_way_ms: u64, out: &mut Partial) {
+    let mut w = World::new(Chooser::default_run());
+    w.default_latency = one_way_ms * MS;
+    let mut nodes: Vec<usize> = vec![];
+    let mut addrs: Vec<SocketAddrV4> = vec![];
+    let mut problems: Vec<(String, String)> = vec![];
+    for j in 0..s {
+        let boots: Vec<SocketAddrV4> = if j == 0 { vec![] } else { vec![addrs[0]] };
+        let n = w.add_node(NodeCfg::new(node_ip(j, public), 6881).server().bootstrap(&boots).id(id_class(j, 0x3E)));
+        nodes.push(n);
+        addrs.push(w.node_addr(n));
+        let c = w.call_bootstrapped(n);
+        let h = w.now + 60 * SEC;
+        if !w.run_calls(&[c], h) {
+            problems.push(("bootstrapped-never-returns".into(), format!("node #{j}: bootstrapped() did not return within 60 s")));
+        }
+    }
+    w.run_for(120 * SEC);
+    for j in 1..s {
+        let table = table_ids(&w, nodes[j]);
+        if table.is_empty() {
+            problems.push(("joiner-table-empty".into(), format!("joiner #{j}: two minutes after starting, its routing table is still empty although its bootstrap server answers every request ({} ms round trip; request timeout now {:?})", 2 * one_way_ms, w.snapshot(nodes[j]).socket.request_timeout)));
+        }
+        let c = w.call_bootstrapped(nodes[j]);
+        let h = w.now + 60 * SEC;
+        w.run_calls(&[c], h);
+        if !matches!(w.result(c), Some(CallResult::Bool(true))) {
+            problems.push(("joiner-not-bootstrapped".into(), format!("joiner #{j}: bootstrapped() = {:?} two minutes after starting", w.result(c))));
+        }
+        let t0: BTreeSet<SocketAddrV4> = w.snapshot(nodes[0]).core.routing_table.buckets.iter().flat_map(|(_, b)| b.iter().map(|n| n.address)).collect();
+        if !t0.contains(&addrs[j]) {
+            problems.push(("first-node-does-not-know-joiner".into(), format!("the first node's table lacks joiner #{j}")));
+        }
+    }
+    if w.any_actor_panicked().is_some() {
+        problems.push(("actor-died".into(), "an actor thread died".into()));
+    }
+    out.add("executions", 1);
+    out.add("transitions", w.steps);
+    out.add("slow_link_runs", 1);
+    if problems.is_empty() {
+        out.add("clean_runs", 1);
+    }
+    out.outcomes.insert(format!("slow-links:s{s}:{one_way_ms}ms:problems{}", problems.len().min(3)));
+    let mut seen = BTreeSet::new();
+    for (k, d) in problems {
+        if seen.insert(k.clone()) {
+            out.violation(
+                format!("{k}/slow-links/s{s}/{}", if public { "public" } else { "private" }),
+                format!("S={s}, every datagram takes {one_way_ms} ms, plan {}: {d}", if public { "public" } else { "private" }),
+                json!({"part": "slow-links", "s": s, "public": public, "one_way_ms": one_way_ms}),
+            );
+        }
+    }
+}
+
 fn cfg_json(c: &Cfg) -> Value {
     json!({"s": c.s, "perm": c.perm, "timing": c.timing, "list": c.list, "public": c.public})
 }
@@ -361,6 +422,18 @@ fn run(tier: Tier, shard: usize, nshards: usize, _seed: u64) -> Partial {
         let o = scenario(c, i % 9 == 0);
         record(c, &o, &mut out);
     }
+    // slow links (round trip above the initial request timeout)
+    let mut unit = 0;
+    for s in [2usize, 3] {
+        for public in [true, false] {
+            for one_way in [300u64, 350, 600] {
+                unit += 1;
+                if unit % nshards == shard {
+                    slow_links(s, public, one_way, &mut out);
+                }
+            }
+        }
+    }
     out.witness("networks joined cleanly", out.count("clean_runs") > 0);
     out.sample(json!({"s": 3, "join_order": 4, "timing": "after-1-event", "bootstrap_list": "first-node+dead", "plan": "public"}));
     out
@@ -368,6 +441,11 @@ fn run(tier: Tier, shard: usize, nshards: usize, _seed: u64) -> Partial {
 
 fn replay(v: &Value) -> Result<Option<Violation>, String> {
     let g = |k: &str| v.get(k).and_then(|x| x.as_u64()).map(|x| x as usize);
+    if v.get("part").and_then(|p| p.as_str()) == Some("slow-links") {
+        let mut out = Partial::default();
+        slow_links(g("s").ok_or("s")?, v.get("public").and_then(|x| x.as_bool()).unwrap_or(true), g("one_way_ms").ok_or("one_way_ms")? as u64, &mut out);
+        return Ok(out.violations.into_iter().next());
+    }
     let c = Cfg { s: g("s").ok_or("s")?, perm: g("perm").ok_or("perm")?, timing: g("timing").ok_or("timing")?, list: g("list").ok_or("list")?, public: v.get("public").and_then(|x| x.as_bool()).unwrap_or(true) };
     let o = scenario(&c, false);
     let mut out = Partial::default();
